@@ -60,8 +60,17 @@ func (tr TemplatedRegexp) Expand(rule parser.Rule) (*regexp.Regexp, error) {
 	return regexp.Compile(buf.String())
 }
 
+// neverMatches is used when a pattern cannot be expanded for a given rule.
+var neverMatches = regexp.MustCompile(`[^\x{0}-\x{10FFFF}]`)
+
 func (tr TemplatedRegexp) MustExpand(rule parser.Rule) *regexp.Regexp {
-	re, _ := tr.Expand(rule)
+	re, err := tr.Expand(rule)
+	if err != nil {
+		// Rule fields are inserted into the pattern verbatim, so a pattern that
+		// was valid when the config was loaded can expand into an invalid regexp
+		// (alert named "Foo(bar" and "{{ $alert }}.*"). Nothing can match that.
+		return neverMatches
+	}
 	return re
 }
 
